@@ -516,7 +516,9 @@ func roundTrip(c *fw.Ctx, r *rng.R, id string, i int) bool {
 		{Type: typ, Name: "x"},
 		{Type: "string", Name: "d", Origin: &gen.Call{Name: "meta", Args: []gen.Expr{gen.A(acct2), gen.S(key2)}}},
 		{Type: "string", Name: "s", Origin: &gen.Call{Name: "meta", Args: []gen.Expr{gen.A(acct), gen.S(key + "_sibling")}}},
+		{Type: "string", Name: "t", Origin: &gen.Call{Name: "meta", Args: []gen.Expr{gen.A(acct), gen.S(key)}}},
 	}, Stmts: []gen.Stmt{
+		&gen.Call{Name: "set_tx_meta", Args: []gen.Expr{gen.S("same_entry_as_text"), gen.V("t")}},
 		&gen.Call{Name: "set_tx_meta", Args: []gen.Expr{gen.S("from_sibling_key"), gen.V("s")}},
 		&gen.Call{Name: "set_tx_meta", Args: []gen.Expr{gen.S("from_other_entry"), gen.V("d")}},
 		&gen.Call{Name: "set_tx_meta", Args: []gen.Expr{gen.S("from_meta"), gen.V("w")}},
@@ -526,6 +528,11 @@ func roundTrip(c *fw.Ctx, r *rng.R, id string, i int) bool {
 	if r.Bool() {
 		// the other entry is read first
 		sc2.Vars[0], sc2.Vars[2] = sc2.Vars[2], sc2.Vars[0]
+	}
+	if r.Bool() {
+		// the same entry is read as a string before it is read with its own type
+		last := len(sc2.Vars) - 1
+		sc2.Vars = append([]*gen.VarDecl{sc2.Vars[last]}, sc2.Vars[:last]...)
 	}
 	cs2 := mkCase(sc2, map[string]string{"x": stored}, nil)
 	cs2.Meta = map[string]map[string]string{acct: {key: stored}}
@@ -564,6 +571,10 @@ func roundTrip(c *fw.Ctx, r *rng.R, id string, i int) bool {
 	}
 	if sv := o2.TxMeta["from_sibling_key"]; sv == nil || sv.String() != "sibling value" {
 		c.Violation("sibling-key-read", fmt.Sprintf("meta(@%s, %q) holds %q but the variable reading it has the value %s", acct, key+"_sibling", "sibling value", valueSig(sv)), input(ex))
+		return false
+	}
+	if tv := o2.TxMeta["same_entry_as_text"]; tv == nil || tv.String() != stored {
+		c.Violation("same-entry-read-as-string", fmt.Sprintf("meta(@%s, %q) holds %q; read as a string (next to a %s variable reading the same entry) it is %s", acct, key, stored, typ, valueSig(tv)), input(ex))
 		return false
 	}
 	c.Count("other_entries_read", 1)
